@@ -19,6 +19,11 @@ const (
 	fRew   = "dstutil/rewrite.go"
 )
 
+var mCrossFile = Mutant{"findDecoration searches across the files of a package", fDF, "\t\tif !f.sameFile(f.fragments[from], f.fragments[i]) {\n\t\t\t// never attach to a decoration point in another file of the package\n\t\t\treturn\n\t\t}\n", ""}
+var mRawFile = Mutant{"resolvePath passes the raw file field to the resolver", fD, "f.Resolver.ResolveIdent(f.fileOf(id), parent, parentField, id)", "f.Resolver.ResolveIdent(f.file, parent, parentField, id)"}
+var mAvoidGroup = Mutant{"fragment avoids up to the end of the comment group", fDF, "endLine := f.Fset.Position(c.End()).Line", "endLine := f.Fset.Position(cg.End()).Line"}
+var mDeleteReg = Mutant{"restoreIdent forgets the identifier's registration", fR, "\tr.Dst.Nodes[out.Sel] = n\n", "\tr.Dst.Nodes[out.Sel] = n\n\tdelete(r.Ast.Nodes, r.Dst.Nodes[out.Sel])\n"}
+var mResolveAll = Mutant{"updateImports asks the resolver about every required import", fR, "\tfor path := range packagesInUse {\n\t\tif _, ok := effectiveAlias[path]; ok {", "\tfor path := range importsRequired {\n\t\tif _, ok := effectiveAlias[path]; ok {"}
 var mTokenLen = Mutant{"restore DeferStmt advances by len(go)", fRest, "len(token.DEFER.String())", "len(token.GO.String())"}
 var mDropTok = Mutant{"restore AssignStmt drops out.Tok", fRest, "\t\tout.Tok = n.Tok\n\t\tout.TokPos = r.cursor\n\t\tr.cursor += token.Pos(len(n.Tok.String()))\n\n\t\t// Decoration: Tok\n\t\tr.applyDecorations(out, \"Tok\", n.Decs.Tok, false)\n\n\t\t// List: Rhs", "\t\tout.TokPos = r.cursor\n\t\tr.cursor += token.Pos(len(n.Tok.String()))\n\n\t\t// Decoration: Tok\n\t\tr.applyDecorations(out, \"Tok\", n.Decs.Tok, false)\n\n\t\t// List: Rhs"}
 var mElseGuard = Mutant{"restore IfStmt else token unguarded", fRest, "if n.Else != nil {\n\t\t\tr.cursor", "if true {\n\t\t\tr.cursor"}
@@ -81,20 +86,20 @@ var mScopeInsert = Mutant{"Scope.Insert overwrites", "scope.go", "\tif alt = s.O
 
 // SelfTestMutants lists, per property, the mutants its check must catch.
 var SelfTestMutants = map[string][]Mutant{
-	"C01": {mTokenLen, mDropTok, mElseGuard, mFragNoChild, mNoParseComments, mFileScope, mDecKey},
-	"C02": {mDecKey, mCloneDropDec, mSpaceLast, mCondDec},
-	"C03": {mDropTok, mDropChildDeco, mFragNoChild, mElseGuard},
+	"C01": {mTokenLen, mDropTok, mElseGuard, mFragNoChild, mNoParseComments, mFileScope, mDecKey, mCrossFile, mAvoidGroup},
+	"C02": {mDecKey, mCloneDropDec, mSpaceLast, mCondDec, mCrossFile},
+	"C03": {mDropTok, mDropChildDeco, mFragNoChild, mElseGuard, mCrossFile, mAvoidGroup},
 	"C04": {mSwapDecs, mEndFlag, mCondDec},
 	"C05": {mSpaceNoFresh, mSpaceEmpty3, mSpaceLast, mNoAdvanceNL},
-	"C06": {mCloneAlias, mCloneDropDec, mCloneShareDec, mDupFlag},
-	"C07": {mNoSort, mIdentNoPeriod},
-	"C08": {mAlwaysSort, mMergeOrder, mIdentNoPeriod, mStoreBeforeErr},
-	"C09": {mAvoidTypo, mForceX, mNoVendorLocal, mFieldPath},
-	"C11": {mDropMapReg, mLateMapReg, mDropChildDeco},
+	"C06": {mCloneAlias, mCloneDropDec, mCloneShareDec, mDupFlag, mDeleteReg},
+	"C07": {mNoSort, mIdentNoPeriod, mResolveAll},
+	"C08": {mAlwaysSort, mMergeOrder, mIdentNoPeriod, mStoreBeforeErr, mResolveAll},
+	"C09": {mAvoidTypo, mForceX, mNoVendorLocal, mFieldPath, mRawFile},
+	"C11": {mDropMapReg, mLateMapReg, mDropChildDeco, mDeleteReg},
 	"C12": {mCursorBack, mNoAdvanceNL, mAddFileEarly, mPosNotCursor},
 	"C13": {mWalkDrop, mWalkOrder, mWalkNoNil},
 	"C14": {mApplyName, mApplyDrop, mIterStep, mUnsortedFiles, mWalkDrop},
-	"C15": {mNilFileGuard, mUnguardChild, mNewPanic},
+	"C15": {mNilFileGuard, mUnguardChild, mNewPanic, mRawFile},
 	"C16": {mUnlockEarly, mGlobalWrite, mGoroutine, mNoSort},
 	"C17": {mSwallowErr, mErrNoWrap, mStoreBeforeErr, mDecoDropErr},
 	"C18": {mObjLate, mScopeNoOuter, mExtrasGate, mNewPkgErr, mScopeInsert},
